@@ -205,11 +205,56 @@ def boundary_allele_file(d):
     return vcfgen.make_indexed(d, "alleles", vcfgen.vcf_text(hdr, recs, ("S0", "S1", "S2")))
 
 
+def summary_check(ctx, doc, store):
+    """per-field summaries against the stored values themselves: max_number is the widest stored
+    record (missing entries included: they occupy a slot), integer min/max bound every stored
+    non-sentinel value and are attained"""
+    for name, fld in store.fields.items():
+        vf = fld.vcf_field
+        if vf.vcf_type not in ("Integer", "Float") or name == "FORMAT/GT":
+            continue
+        vals = [np.asarray(v) for v in fld.values if v is not None]
+        width = max([int(v.shape[-1]) if v.ndim else 1 for v in vals], default=0)
+        s = vf.summary
+        if s.max_number != width:
+            ctx.fail(dict(doc, field=name), dict(max_number=s.max_number, widest_stored_record=width),
+                     f"summary of {name}: max_number = {s.max_number} but the widest stored record has {width} values")
+        if vf.vcf_type == "Integer" and vals:
+            flat = np.concatenate([v.reshape(-1) for v in vals])
+            flat = flat[flat >= -2147483646]
+            if flat.size and (int(flat.min()), int(flat.max())) != (s.min_value, s.max_value):
+                ctx.fail(dict(doc, field=name), dict(summary=[s.min_value, s.max_value], stored=[int(flat.min()), int(flat.max())]),
+                         f"summary of {name}: [min, max] = [{s.min_value}, {s.max_value}] does not bound the stored values / is not attained")
+
+
+def all_missing_widest_file(d):
+    """the widest record of a Number=R / Number=. integer field is entirely missing (FORMAT: in every sample)"""
+    hdr = ['##contig=<ID=c0,length=100000>', '##FILTER=<ID=PASS,Description="p">', '##FORMAT=<ID=GT,Number=1,Type=String,Description="g">',
+           '##FORMAT=<ID=AD,Number=R,Type=Integer,Description="d">', '##FORMAT=<ID=XV,Number=.,Type=Integer,Description="d">',
+           '##INFO=<ID=RC,Number=R,Type=Integer,Description="d">', '##FORMAT=<ID=FV,Number=.,Type=Float,Description="d">']
+    recs = ["c0\t100\t.\tA\tT\t.\tPASS\tRC=3,4\tGT:AD:XV:FV\t0/1:5,6:1:0.5\t1|1:7,8:2,3:1.5,2.5",
+            "c0\t200\t.\tA\tT,G\t.\tPASS\tRC=.,.,.\tGT:AD:XV:FV\t0/2:.,.,.:.,.,.,.:.,.,.\t1|2:.,.,.:.,.,.,.:.,.,.",
+            "c0\t300\t.\tA\tC\t.\tPASS\tRC=9,1\tGT:AD:XV:FV\t0/0:1,2:7:0.25\t./.:.:.:."]
+    return vcfgen.make_indexed(d, "allmissing", vcfgen.vcf_text(hdr, recs, ("S0", "S1")))
+
+
 def part_b(ctx):
     from bio2zarr import vcf2zarr
     from bio2zarr.vcf2zarr import icf as icf_mod
 
     r = ctx.rnd
+    d1 = os.path.join(ctx.work, "c08b_allmissing")
+    os.makedirs(d1)
+    try:
+        p1 = all_missing_widest_file(d1)
+        vcf2zarr.explode(os.path.join(d1, "a.icf"), [p1], worker_processes=0)
+        st1 = icf_mod.IntermediateColumnarFormat(os.path.join(d1, "a.icf"))
+        doc = dict(part="e2e", special="widest record of a field entirely missing")
+        ctx.case(doc, nontrivial=True)
+        source_check(ctx, doc, p1, st1, field_dump(st1))
+        summary_check(ctx, doc, st1)
+    finally:
+        shutil.rmtree(d1, ignore_errors=True)
     d0 = os.path.join(ctx.work, "c08b_alleles")
     os.makedirs(d0)
     try:
@@ -242,6 +287,7 @@ def part_b(ctx):
             if n != len(case["recs"]):
                 ctx.fail(doc0, dict(num_records=n), "record count of the store differs from the number of input records")
             source_check(ctx, doc0, p, ref, ref_dump)
+            summary_check(ctx, doc0, ref)
             for cfg in range(ctx.n(2, 4)):
                 nparts = r.choice([1, 2, 3, 5, 50])
                 ccs = r.choice([1e-6, 0.0002, 0.001, 16])
